@@ -1,14 +1,14 @@
 """C06: pairings (BLS12 both twist types, BN, BW6, MNT4, MNT6).  Case generator + metadata.
 
-Model-level ops (families with an executable Coq model: BLS12, BN) compare the raw Miller
-loop output and the final exponentiation coordinate by coordinate; law-level ops (all
-engines) evaluate a relation with the public Rust API and compare with the model's
-specified answer (all true)."""
+Model-level ops (every family has an executable Coq model) compare the prepared
+coefficients, the raw Miller loop output and the final exponentiation coordinate by
+coordinate; law-level ops (all engines) evaluate a relation with the public Rust API and
+compare with the model's specified answer (all true)."""
 import sys, os, json
 sys.path.insert(0, '/verif/lib')
 
 OPS = {
-    'multi_pairing': 1, 'multi_miller_loop': 2, 'final_exp': 3, 'g2_prepare': 4,
+    'multi_pairing': 1, 'multi_miller_loop': 2, 'final_exp': 3, 'g2_prepare': 4, 'g1_prepare': 5,
     'bilinearity_check': 10, 'additivity_check': 11, 'multi_pairing_vs_product': 12,
     'pairing_with_identity_is_one': 13, 'output_order_divides_r': 14,
     'generators_nondegenerate': 15, 'prepared_vs_unprepared': 16,
@@ -28,7 +28,11 @@ ENGINES = {
     8: ('ark_bw6_767', 8, 4, 'bw6'),
     10: ('ark_test_curves::bls12_381', 0, 0, 'bls12_M'),
 }
-MODELLED = [0, 1, 2, 10]
+MODELLED = [0, 1, 2, 10]                     # BLS12 / BN (Fp12 tower)
+MODELLED_SMALL = {'quick': [3, 5], 'thorough': [3, 5, 4, 6]}     # MNT4 / MNT6
+MODELLED_BW6 = {'quick': [7], 'thorough': [7, 8]}
+G2_DEG = {0: 2, 1: 2, 2: 2, 3: 3, 4: 1}      # family -> degree of the G2 base field
+TARGET_DEG = {0: 12, 1: 12, 2: 4, 3: 6, 4: 6}
 PARAMS_JSON = os.path.join(os.path.dirname(os.path.abspath(__file__)), 'params.json')
 HARNESS_BIN = 'c06'
 
@@ -59,6 +63,120 @@ def pre(ctx):
             json.dump(d, f, indent=0, sort_keys=True)
             f.write('\n')
         ctx['notes'].append('params.json regenerated: pairing constants changed (or first run)')
+    if write_curve_consts(load_params()):
+        ctx['notes'].append('coq/C06/CurveConsts.v regenerated from the dumped constants')
+
+
+# ---------------------------------------------------------------------------------------
+# coq/C06/CurveConsts.v: the integer constants of every shipped pairing curve (from the dump
+# above) and, per curve, the cofactor witness c = E * r / (p^k - 1) of the final
+# exponentiation exponent E (computed here, *checked* in the kernel by CurveFacts.v).
+CONSTS_V = '/verif/coq/C06/CurveConsts.v'
+CURVE_NAMES = {0: 'bls12_381', 1: 'bls12_377', 2: 'bn254', 3: 'mnt4_298', 4: 'mnt4_753', 5: 'mnt6_298',
+               6: 'mnt6_753', 7: 'bw6_761', 8: 'bw6_767'}
+
+
+def _val(limbs):
+    return sum(l << (64 * i) for i, l in enumerate(limbs))
+
+
+def curve_exponent(e, prm):
+    """(definitions: list of (name, int or bool), E as int, k)"""
+    fam = ENGINES[e][2]
+    p, r = prm['p'], prm['r']
+    if fam in (0, 1):
+        x = _val(prm['X'])
+        if prm['fam'][1] == 1:
+            x = -x
+        easy = (p ** 6 - 1) * (p ** 2 + 1)
+        if fam == 0:
+            hard = (x - 1) ** 2 * (x + p) * (x ** 2 + p ** 2 - 1) + 3
+        else:
+            hard = (p ** 3 * (12 * x ** 3 + 6 * x ** 2 + 4 * x - 1) + p ** 2 * (12 * x ** 3 + 6 * x ** 2 + 6 * x)
+                    + p * (12 * x ** 3 + 6 * x ** 2 + 4 * x) + (12 * x ** 3 + 12 * x ** 2 + 6 * x + 1))
+        return [('x', x)], easy * hard, 12
+    if fam in (2, 3):
+        W = prm['X']
+        h = len(W) // 2
+        w1, w0 = _val(W[:h]), _val(W[h:])
+        w0neg = prm['fam'][1] == 1
+        last = p * w1 + (-w0 if w0neg else w0)
+        first = (p ** 2 - 1) if fam == 2 else (p ** 3 - 1) * (p + 1)
+        return [('w1', w1), ('w0', w0), ('w0_is_neg', w0neg)], first * last, (4 if fam == 2 else 6)
+    XS = prm['X']
+    n = XS[0]
+    x, m = _val(XS[1:1 + n]), _val(XS[1 + n:1 + 2 * n])
+    F = prm['fam']
+    if F[1] == 1:
+        x, m = -x, -m
+    ht, hy, tmodr = F[5], F[6], F[4] == 1
+    quot = lambda a, b: abs(a) // b * (1 if a >= 0 else -1)
+    d1 = quot(ht - hy, 2) if tmodr else quot(ht + hy, 2)
+    d2 = quot(ht * ht + 3 * hy * hy, 4)
+    easy = (p ** 3 - 1) * (p + 1)
+    if e == 7:
+        R0 = -103 * x ** 7 + 70 * x ** 6 + 269 * x ** 5 - 197 * x ** 4 - 314 * x ** 3 - 73 * x ** 2 - 263 * x - 220
+        R1 = (103 * x ** 9 - 276 * x ** 8 + 77 * x ** 7 + 492 * x ** 6 - 445 * x ** 5 - 65 * x ** 4 + 452 * x ** 3
+              - 181 * x ** 2 + 34 * x + 229)
+        hard = R0 + p * R1
+    else:
+        A0 = (x - 1) ** 2
+        if tmodr:
+            A1 = -(1 + A0) + p
+            B = A1 * (x + 1) + 1
+            A = -(3 * A1)
+            C = B * m
+            D = C * (x - 1)
+            E = D * (x - 1) ** 2 + D
+            Fv = -(E * (x + 1) + C) + D
+            G = -((Fv + D) * (x + 1)) + C + B
+            H = Fv * d1 + E
+            hard = A + (3 * H + B + G * d2)
+        else:
+            A1 = A0 + p
+            B = A1 * (x + 1) - 1
+            A = 3 * A1
+            C = B * m
+            D0 = C * (x - 1)
+            E = D0 * (x - 1) ** 2 + D0
+            D = -D0
+            Fc = D + B
+            G = E * (x + 1) + Fc
+            H = G + C
+            I = (G + D) * (x + 1) - Fc
+            J = H * d1 + E
+            hard = A + (3 * J + B + I * d2)
+    return [('x', x), ('m', m), ('d1', d1), ('d2', d2)], easy * hard, 6
+
+
+def write_curve_consts(prm):
+    out = ['(* GENERATED by props/C06/prop.py (pre step) from the constants dumped out of the Rust configurations',
+           '   (props/C06/params.json) -- do not edit.  Integer constants of the shipped pairing curves and the',
+           '   cofactor witness c = E * r / (p^k - 1) of each final-exponentiation exponent (checked in',
+           '   CurveFacts.v).  Definitions only. *)',
+           'Require Import ZArith.', 'Open Scope Z_scope.', '']
+    for e in sorted(CURVE_NAMES):
+        nm = CURVE_NAMES[e]
+        defs, E, k = curve_exponent(e, prm[e])
+        p, r = prm[e]['p'], prm[e]['r']
+        N = p ** k - 1
+        c = (E * r) // N
+        out.append('Definition %s_p : Z := %d.' % (nm, p))
+        out.append('Definition %s_r : Z := %d.' % (nm, r))
+        for dn, dv in defs:
+            if isinstance(dv, bool):
+                out.append('Definition %s_%s : bool := %s.' % (nm, dn, 'true' if dv else 'false'))
+            else:
+                out.append('Definition %s_%s : Z := %s.' % (nm, dn, ('(%d)' % dv) if dv < 0 else str(dv)))
+        out.append('Definition %s_c : Z := %s.' % (nm, ('(%d)' % c) if c < 0 else str(c)))
+        out.append('')
+    txt = '\n'.join(out)
+    old = open(CONSTS_V).read() if os.path.exists(CONSTS_V) else None
+    if old != txt:
+        with open(CONSTS_V, 'w') as f:
+            f.write(txt)
+        return True
+    return False
 
 
 def _pa(s):
@@ -83,42 +201,58 @@ def load_params():
 # input construction only (scalar multiples of the generators): affine arithmetic over
 # F_p and F_p[u]/(u^2 - nr).  Nothing here is compared: both sides receive the same points.
 class Fld:
-    def __init__(self, p, nr=None):
+    """F_p[u]/(u^d - nr), d in {1, 2, 3}; elements are ints (d = 1) or tuples"""
+    def __init__(self, p, nr=None, d=None):
         self.p, self.nr = p, nr
-        self.d = 1 if nr is None else 2
+        self.d = d if d is not None else (1 if nr is None else 2)
 
     def el(self, l):
-        return l[0] % self.p if self.d == 1 else (l[0] % self.p, l[1] % self.p)
+        if self.d == 1:
+            return l[0] % self.p
+        return tuple(l[i] % self.p for i in range(self.d))
 
     def co(self, x):
-        return [x] if self.d == 1 else [x[0], x[1]]
+        return [x] if self.d == 1 else list(x)
 
     def add(self, a, b):
         p = self.p
-        return (a + b) % p if self.d == 1 else ((a[0] + b[0]) % p, (a[1] + b[1]) % p)
+        return (a + b) % p if self.d == 1 else tuple((x + y) % p for x, y in zip(a, b))
 
     def sub(self, a, b):
         p = self.p
-        return (a - b) % p if self.d == 1 else ((a[0] - b[0]) % p, (a[1] - b[1]) % p)
+        return (a - b) % p if self.d == 1 else tuple((x - y) % p for x, y in zip(a, b))
 
     def mul(self, a, b):
-        p = self.p
-        if self.d == 1:
+        p, d = self.p, self.d
+        if d == 1:
             return a * b % p
-        return ((a[0] * b[0] + self.nr * a[1] * b[1]) % p, (a[0] * b[1] + a[1] * b[0]) % p)
+        r = [0] * (2 * d - 1)
+        for i in range(d):
+            for j in range(d):
+                r[i + j] += a[i] * b[j]
+        for k in range(2 * d - 2, d - 1, -1):
+            r[k - d] += self.nr * r[k]
+        return tuple(x % p for x in r[:d])
 
     def inv(self, a):
         p = self.p
         if self.d == 1:
             return pow(a, -1, p)
-        n = pow((a[0] * a[0] - self.nr * a[1] * a[1]) % p, -1, p)
-        return (a[0] * n % p, (-a[1]) * n % p)
+        if self.d == 2:
+            n = pow((a[0] * a[0] - self.nr * a[1] * a[1]) % p, -1, p)
+            return (a[0] * n % p, (-a[1]) * n % p)
+        nr = self.nr
+        t0 = (a[0] * a[0] - nr * a[1] * a[2]) % p
+        t1 = (nr * a[2] * a[2] - a[0] * a[1]) % p
+        t2 = (a[1] * a[1] - a[0] * a[2]) % p
+        n = pow((a[0] * t0 + nr * (a[2] * t1 + a[1] * t2)) % p, -1, p)
+        return (t0 * n % p, t1 * n % p, t2 * n % p)
 
     def smul(self, k, a):
-        return self.mul(self.el([k, 0]), a)
+        return self.mul(self.el([k] + [0] * (self.d - 1)), a)
 
     def zero(self):
-        return self.el([0, 0])
+        return self.el([0] * self.d)
 
 
 def ec_add(F, a, P, Q):
@@ -151,12 +285,15 @@ class Curve:
         self.e, self.prm = e, prm
         p = prm['p']
         self.r = prm['r']
+        self.fam = ENGINES[e][2]
+        d = self.d2 = G2_DEG[self.fam]
+        self.tdeg = TARGET_DEG[self.fam]
         self.F1 = Fld(p)
-        self.F2 = Fld(p, prm["tower"][1])
+        self.F2 = Fld(p) if d == 1 else Fld(p, prm["tower"][1], d)
         self.a1 = self.F1.el(prm['ab1'][0:1])
-        self.a2 = self.F2.el(prm['ab2'][0:2])
+        self.a2 = self.F2.el(prm['ab2'][0:d])
         self.G1 = (self.F1.el(prm['g1'][1:2]), self.F1.el(prm['g1'][2:3]))
-        self.G2 = (self.F2.el(prm['g2'][1:3]), self.F2.el(prm['g2'][3:5]))
+        self.G2 = (self.F2.el(prm['g2'][1:1 + d]), self.F2.el(prm['g2'][1 + d:1 + 2 * d]))
 
     def g1(self, k):
         return ec_mul(self.F1, self.a1, k % self.r, self.G1)
@@ -164,15 +301,16 @@ class Curve:
     def g2(self, k):
         return ec_mul(self.F2, self.a2, k % self.r, self.G2)
 
-    def pair_arg(self, s, t):
-        P, Q = self.g1(s), self.g2(t)
-        l = [1, 0, 0] if P is None else [0, P[0], P[1]]
-        l += [1, 0, 0, 0, 0] if Q is None else [0, Q[0][0], Q[0][1], Q[1][0], Q[1][1]]
-        return l
+    def g1_arg(self, s):
+        P = self.g1(s)
+        return [1, 0, 0] if P is None else [0, P[0], P[1]]
 
     def g2_arg(self, t):
         Q = self.g2(t)
-        return [1, 0, 0, 0, 0] if Q is None else [0, Q[0][0], Q[0][1], Q[1][0], Q[1][1]]
+        return [1] + [0] * (2 * self.d2) if Q is None else [0] + self.F2.co(Q[0]) + self.F2.co(Q[1])
+
+    def pair_arg(self, s, t):
+        return self.g1_arg(s) + self.g2_arg(t)
 
     def head(self):
         name, cid, fam, tag = ENGINES[self.e]
@@ -214,10 +352,18 @@ def nz_scalar(rng, r):
 #   From<Projective> (into_affine), G1/G2Prepared::from, prepare_g1/g2 .. mode 1, 2, 3
 #   final_exponentiation: f.inverse() == None -> None ........... final_exp 'zero'
 #   cyclotomic_exp: zero shortcut unreachable after the easy part; NAF digits -1/0/1 of X: every final_exp
-#   MNT4/MNT6: no filter (G2 identity panics: F18; G1 identity gives 1) .. 'mnt_g2_identity*', 'mnt_g1_identity'
-#   BW6: chunks restart from the global f_u (F17) ................ 'bw6_ge5pairs*'; <= 4 pairs 'n<=4'
-#   BW6 T_MOD_R_IS_ZERO false (bw6_761) / true (bw6_767) ........ engines 7 / 8 (8: thorough tier only)
-#   MNT ATE_IS_LOOP_COUNT_NEG, W0_IS_NEG ........................ engines 3, 5 (and 4, 6 in thorough)
+#   MNT4/MNT6: no filter; G2 identity = empty coefficient lists -> ate_miller_loop returns one (F18, fixed);
+#       G1 identity goes through the loop with (0, 0) ......... 'mnt_g2_identity*', 'mnt_g1_identity', model-level
+#       classes 'P0' / 'Q0' / both in every list position, lists 0..5, 'all_identity'
+#   MNT ATE_LOOP_COUNT digit 1 / -1 / 0, ATE_IS_LOOP_COUNT_NEG tail (extra addition coefficient, inverse),
+#       W0_IS_NEG ............................................... mnt4_298: (false, false), mnt6_298: (true, true)
+#   MNT final_exponentiation: value.inverse()? == None ......... final_exp 'zero'
+#   BW6: f_u computed in chunks of 4, f_1 / f_2 over all pairs with one accumulator (F17, fixed) ..
+#       'bw6_ge5pairs*' (law level), model-level lists n = 0, 1, 4, 5 (quick), 0..9 (thorough)
+#   BW6 ATE_LOOP_COUNT_2 digit 1 / -1 / 0 (f *= f_u / f_u_inv) ... every shipped constant has all of them
+#   BW6 T_MOD_R_IS_ZERO false + hard-part override (bw6_761) / true + Algorithm 4.3 (bw6_767),
+#       ATE_LOOP_COUNT_1_IS_NEGATIVE, X_IS_NEGATIVE false / true . engines 7 / 8 (8: thorough tier only)
+#   BW6 final_exponentiation: f.inverse().unwrap() panics on 0 . not generated (outside the property's domain)
 def gen(rng, tier):
     prm = load_params()
     quick = tier == 'quick'
@@ -278,6 +424,87 @@ def gen(rng, tier):
                ([rng.randrange(p) for _ in range(6)] + [0] * 6, 'c1_zero'),
                ([0] * 6 + [rng.randrange(p) for _ in range(6)], 'c0_zero')]
         els += [([rng.randrange(p) for _ in range(12)], 'dense') for _ in range(8 if quick else 120)]
+        for v, cl in els:
+            yield 'final_exp', C.head() + [[0], v], tag + '/' + cl
+
+
+    # ---------------- model-level: MNT4 / MNT6 (no chunking, no filter) and BW6 ----------------
+    small = MODELLED_SMALL['quick' if quick else 'thorough']
+    bw6 = MODELLED_BW6['quick' if quick else 'thorough']
+    for e in small + bw6:
+        C = Curve(e, prm[e])
+        tag = ENGINES[e][3] + ('' if e in (3, 5, 7) else '_big')
+        is_bw6 = e in (7, 8)
+        big = e in (4, 6, 7, 8)
+        if is_bw6:
+            lengths = [0, 1, 3, 4, 5, 8, 9] if quick else [0, 1, 2, 3, 4, 5, 7, 8, 9, 12, 13]
+            reps = 1 if quick else 4
+        else:
+            lengths = [0, 1, 2, 3, 4, 5]
+            reps = (3 if quick else 30) if not big else 4
+        for _ in range(reps):
+            for n in lengths:
+                mode = rng.randrange(4)
+                pairs, pat = [], []
+                for i in range(n):
+                    k = rng.randrange(10)
+                    s, cs = nz_scalar(rng, C.r)
+                    t, ct = nz_scalar(rng, C.r)
+                    if k == 0:
+                        s, cs = 0, 'P0'
+                    elif k == 1:
+                        t, ct = 0, 'Q0'
+                    elif k == 2:
+                        s, t, cs, ct = 0, 0, 'P0', 'Q0'
+                    pairs.append(C.pair_arg(s, t))
+                    pat.append(cs + ':' + ct)
+                yield 'multi_pairing', C.head() + [[mode]] + pairs, '%s/n%d/mode%d/%s' % (tag, n, mode, ','.join(pat))
+        # identity in either slot, alone and inside a list
+        s, _ = nz_scalar(rng, C.r)
+        t, _ = nz_scalar(rng, C.r)
+        yield 'multi_pairing', C.head() + [[0]] + [C.pair_arg(0, t)], tag + '/single/P0'
+        yield 'multi_pairing', C.head() + [[0]] + [C.pair_arg(s, 0)], tag + '/single/Q0'
+        yield 'multi_pairing', C.head() + [[2]] + [C.pair_arg(0, 0)], tag + '/single/PQ0'
+        yield 'multi_pairing', C.head() + [[0]] + [C.pair_arg(s, t), C.pair_arg(C.r - s, t)], tag + '/cancelling'
+        yield 'multi_pairing', C.head() + [[2]] + [C.pair_arg(s, t), C.pair_arg(s, t)], tag + '/equal_pairs'
+        if is_bw6:
+            # surviving-pair counts at the chunk thresholds of the first loop, identities interleaved
+            for n, ids in [(4, 1), (5, 2), (8, 1), (9, 2)] * (1 if quick else 3):
+                slots = ['k'] * n + ['i'] * ids
+                rng.shuffle(slots)
+                pairs = []
+                for sl in slots:
+                    s2, _ = nz_scalar(rng, C.r)
+                    t2, _ = nz_scalar(rng, C.r)
+                    if sl == 'i':
+                        if rng.randrange(2):
+                            s2 = 0
+                        else:
+                            t2 = 0
+                    pairs.append(C.pair_arg(s2, t2))
+                yield 'multi_pairing', C.head() + [[0]] + pairs, '%s/survive%d/ids_interleaved%d' % (tag, n, ids)
+        yield 'multi_pairing', C.head() + [[1]] + [C.pair_arg(s, 0), C.pair_arg(s, t), C.pair_arg(0, t)], tag + '/ids_around_one_pair'
+        yield 'multi_pairing', C.head() + [[0]] + [C.pair_arg(0, 1), C.pair_arg(1, 0), C.pair_arg(0, 0)], tag + '/all_identity'
+        yield 'multi_miller_loop', C.head() + [[0]] + [C.pair_arg(1, 1)], tag + '/generators'
+        # g2_prepare / g1_prepare
+        k = (3 if quick else 10) if big else (4 if quick else 40)
+        for t, ct in [(0, 'Q0'), (1, 'gen'), (2, '2'), (C.r - 1, 'r-1')] + [nz_scalar(rng, C.r) for _ in range(k)]:
+            yield 'g2_prepare', C.head() + [[0], C.g2_arg(t)], tag + '/' + ct
+        if not is_bw6:
+            for t, ct in [(0, 'P0'), (1, 'gen'), (C.r - 1, 'r-1')] + [nz_scalar(rng, C.r) for _ in range(k)]:
+                yield 'g1_prepare', C.head() + [[0], C.g1_arg(t)], tag + '/' + ct
+        # final_exp on arbitrary field elements (zero: MNT returns None; BW6 unwraps = outside the domain)
+        p = C.prm['p']
+        D = C.tdeg
+        h = D // 2
+        els = [([1] + [0] * (D - 1), 'one'), ([p - 1] + [0] * (D - 1), 'minus_one'),
+               ([rng.randrange(1, p)] + [0] * (D - 1), 'prime_subfield'),
+               ([rng.randrange(p) for _ in range(h)] + [0] * h, 'c1_zero'),
+               ([0] * h + [rng.randrange(p) for _ in range(h)], 'c0_zero')]
+        if not is_bw6:
+            els = [([0] * D, 'zero')] + els
+        nd = (3 if quick else 20) if big else (8 if quick else 120)
+        els += [([rng.randrange(p) for _ in range(D)], 'dense') for _ in range(nd)]
         for v, cl in els:
             yield 'final_exp', C.head() + [[0], v], tag + '/' + cl
 
